@@ -62,6 +62,7 @@ type schedStats struct {
 	LockAcquires      int   `json:"lock_acquisitions"`
 	CondWaits         int   `json:"cond_waits"`
 	ForeignWakes      int   `json:"wakeups_from_unscheduled_goroutines"`
+	RealBlocking      int   `json:"channel_statements_run_detached"`
 	PoolDrops         int64 `json:"pool_items_dropped"`
 	ExplicitFallbacks int   `json:"explicit_fallbacks"`
 }
